@@ -2,7 +2,7 @@
    pauli_products_map comes from QPG.conjtab (regenerated from /repo). *)
 From Coq Require Import ZArith NArith List Bool.
 From QP Require Import Cx Zw Apply Local Gates.
-From QPM Require Import Pauli CompBasis Grouping GF2 Operator OperatorExt Expect OperatorAdj SparseExport TransAmp LabelString.
+From QPM Require Import Pauli CompBasis Grouping GF2 Operator OperatorExt Expect OperatorAdj SparseExport TransAmp LabelString LabelSort.
 From QPM Require Intern.
 From QPG Require Import conjtab.
 Import ListNotations.
@@ -227,3 +227,17 @@ Example interning_example :
   = [([(0%N, SX); (1%N, SY)], [(0%N, SX); (1%N, SY)]); ([(0%N, SX); (1%N, SY)], [(0%N, SX); (1%N, SY)]);
      ([(5%N, SZ)], [(5%N, SZ)])].
 Proof. vm_compute. reflexivity. Qed.
+
+(* PauliLabel.__str__ sorts the factors by qubit index (model LabelSort.v: str_of = show after an insertion sort by index): the
+   string form - the intern key - is the same for every order in which a constructor received the pairs, and it parses back to the
+   same set of pairs *)
+Theorem string_form_ignores_the_order_of_construction :
+  forall l1 l2 : list (N * sp), Permutation.Permutation l1 l2 -> NoDup (map fst l1) -> str_of l1 = str_of l2.
+Proof. exact string_form_ignores_listing_order. Qed.
+Print Assumptions string_form_ignores_the_order_of_construction.
+
+Theorem sorted_string_form_round_trips :
+  forall l : list (N * sp), NoDup (map fst l) ->
+  exists r, LabelString.parse (str_of l) = Some r /\ Permutation.Permutation r l.
+Proof. exact string_form_parses_to_the_same_pairs. Qed.
+Print Assumptions sorted_string_form_round_trips.
